@@ -24,6 +24,7 @@ ASSUMPTIONS = [
 ]
 ANCHOR_FILES = ("src/pydrobert/speech/filters.py", "src/pydrobert/speech/config.py")
 EXHAUSTIVE_PARTS = []
+SUITE_TESTS = ['tests/test_filters.py', 'tests/test_compute.py']  # the repository's own tests as an extra monitored workload (thorough tier)
 LEVEL_TEXT = (
     "Every in-scope get_impulse_response call of the workload (8e3 quick / 2.5e5 thorough triples at the statement's minimum width, one above it and a "
     "random larger one) is checked against the inverse DFT of the bank's own frequency response and against the advertised supports with the stated bounds. "
@@ -192,6 +193,10 @@ def plan(tier, seed):
 
 
 def run_shard(spec, rec):
+    if "suite" in spec:
+        from .. import suite
+
+        return suite.run(__name__.rsplit(".", 1)[-1], spec, rec)
     mon = Mon(rec)
     mon.attach()
     for i in range(spec["a"], spec["b"]):
